@@ -484,7 +484,11 @@ var LogFunc = function.New(&function.Spec{
 			return cty.UnknownVal(cty.String), err
 		}
 
-		return cty.NumberFloatVal(math.Log(num) / math.Log(base)), nil
+		result := math.Log(num) / math.Log(base)
+		if math.IsNaN(result) {
+			return cty.UnknownVal(cty.Number), fmt.Errorf("logarithm is not defined for the given number and base")
+		}
+		return cty.NumberFloatVal(result), nil
 	},
 })
 
